@@ -298,6 +298,27 @@ def equalBody (a b : GoVal) (seqK : SeqView → R Bool) (mapK : Ty → List (GoV
   | .struct => safeEqual a b     -- no `GoVal` is a `yaml.MapItem`
   | .invalid => safeEqual a b
 
+/-- the Array/Slice case for a first operand with elements `xs`: `ra.Len() != rb.Len()`, then the
+element loop `loop` (against a `MapSlice`: see `valsVsItems`) -/
+def seqVals (xs : List GoVal) (loop : List GoVal → R Bool) : SeqView → R Bool
+  | .vals ys => if xs.length != ys.length then .ok false else loop ys
+  | .items kvs => .ok (valsVsItems xs.length kvs.length)
+
+/-- the Array/Slice case for a first operand that is a `yaml.MapSlice` with items `kvs` -/
+def seqItems (kvs : List (GoVal × GoVal)) (loop : List (GoVal × GoVal) → R Bool) : SeqView → R Bool
+  | .vals ys => .ok (valsVsItems ys.length kvs.length)
+  | .items kvs' => if kvs.length != kvs'.length then .ok false else loop kvs'
+
+/-- `equalMaps` for a first operand with key type `kt` and entries `kvs` -/
+def mapEntries (kt : Ty) (kvs : List (GoVal × GoVal)) (loop : List (GoVal × GoVal) → R Bool) :
+    Ty → List (GoVal × GoVal) → R Bool :=
+  fun kt' kvs' => if kt != kt' || kvs.length != kvs'.length then .ok false else loop kvs'
+
+def bytesSeq : SeqView → R Bool :=
+  fun _ => .unmodelled "[]byte (the driver rewrites it to []uint8)"
+def keyedMapK : Ty → List (GoVal × GoVal) → R Bool :=
+  fun _ _ => .unmodelled "IterationKeyedMap (the driver rewrites it to map[string]any)"
+
 mutual
 /-- `values.Equal(a, b)`. `equalAux true a b` is the function itself; `equalAux false a b` is its
 body after `a = ToLiquid(a)` (the flag only exists to keep the recursion structural). -/
@@ -308,26 +329,12 @@ def equalAux : Bool → GoVal → GoVal → R Bool
     match fl, v with
     | true, .drop w => equalAux false w b
     | _, _ => equalBody (.ptr v) (toLiq b) noSeq noMap
-  | _, .slice t xs, b =>
-    equalBody (.slice t xs) (toLiq b) (fun
-      | .vals ys => if xs.length != ys.length then .ok false else equalList xs ys
-      | .items kvs => .ok (valsVsItems xs.length kvs.length)) noMap
-  | _, .array t xs, b =>
-    equalBody (.array t xs) (toLiq b) (fun
-      | .vals ys => if xs.length != ys.length then .ok false else equalList xs ys
-      | .items kvs => .ok (valsVsItems xs.length kvs.length)) noMap
-  | _, .mapSlice kvs, b =>
-    equalBody (.mapSlice kvs) (toLiq b) (fun
-      | .vals ys => .ok (valsVsItems ys.length kvs.length)
-      | .items kvs' => if kvs.length != kvs'.length then .ok false else equalItems kvs kvs') noMap
-  | _, .map kt vt kvs, b =>
-    equalBody (.map kt vt kvs) (toLiq b) noSeq (fun kt' kvs' =>
-      if kt != kt' || kvs.length != kvs'.length then .ok false else mapAll kvs kvs')
-  | _, .bytes s, b =>
-    equalBody (.bytes s) (toLiq b) (fun _ => .unmodelled "[]byte (the driver rewrites it to []uint8)") noMap
-  | _, .keyedMap fs, b =>
-    equalBody (.keyedMap fs) (toLiq b) noSeq
-      (fun _ _ => .unmodelled "IterationKeyedMap (the driver rewrites it to map[string]any)")
+  | _, .slice t xs, b => equalBody (.slice t xs) (toLiq b) (seqVals xs (equalList xs)) noMap
+  | _, .array t xs, b => equalBody (.array t xs) (toLiq b) (seqVals xs (equalList xs)) noMap
+  | _, .mapSlice kvs, b => equalBody (.mapSlice kvs) (toLiq b) (seqItems kvs (equalItems kvs)) noMap
+  | _, .map kt vt kvs, b => equalBody (.map kt vt kvs) (toLiq b) noSeq (mapEntries kt kvs (mapAll kvs))
+  | _, .bytes s, b => equalBody (.bytes s) (toLiq b) bytesSeq noMap
+  | _, .keyedMap fs, b => equalBody (.keyedMap fs) (toLiq b) noSeq keyedMapK
   | _, .nil, b => equalBody .nil (toLiq b) noSeq noMap
   | _, .bool x, b => equalBody (.bool x) (toLiq b) noSeq noMap
   | _, .int k n, b => equalBody (.int k n) (toLiq b) noSeq noMap
@@ -368,14 +375,28 @@ end
 /-- `values.Equal` -/
 def equal (a b : GoVal) : R Bool := equalAux true a b
 
+/-- the two loops of `Equal` for a first operand `a` (already through `ToLiquid`) -/
+def seqK : GoVal → SeqView → R Bool
+  | .slice _ xs | .array _ xs => seqVals xs (equalList xs)
+  | .mapSlice kvs => seqItems kvs (equalItems kvs)
+  | .bytes _ => bytesSeq
+  | _ => noSeq
+def mapK : GoVal → Ty → List (GoVal × GoVal) → R Bool
+  | .map kt _ kvs => mapEntries kt kvs (mapAll kvs)
+  | .keyedMap _ => keyedMapK
+  | _ => noMap
+
+/-- `values.Equal` on operands that went through `ToLiquid` (`Proofs/CompareLemmas.lean`:
+`equal a b = equalTL (toLiq a) (toLiq b)`) -/
+def equalTL (a b : GoVal) : R Bool := equalBody a b (seqK a) (mapK a)
+
 /-! ## `values.Less` -/
 
 /-- Go's `<` on strings: lexicographic on bytes -/
 def bytesLt (s t : Bytes) : Bool := decide (s < t)
 
-def less (a0 b0 : GoVal) : R Bool :=
-  let a := toLiq a0
-  let b := toLiq b0
+/-- the body of `values.Less` after `a, b = ToLiquid(a), ToLiquid(b)` -/
+def lessTL (a b : GoVal) : R Bool :=
   if a.isNil || b.isNil then .ok false else
   match joinKind (rkind a) (rkind b) with
   | .bool => do
@@ -394,6 +415,9 @@ def less (a0 b0 : GoVal) : R Bool :=
     let y ← rString b
     .ok (bytesLt x y)
   | _ => .ok false
+
+/-- `values.Less` -/
+def less (a b : GoVal) : R Bool := lessTL (toLiq a) (toLiq b)
 
 /-! ## The `Value` wrappers -/
 
@@ -499,6 +523,13 @@ def containsList : List GoVal → GoVal → R Bool
     let r ← equal x e
     if r then .ok true else containsList xs e
 
+/-- the loop of `mapSliceValue.Contains` (C09-3: `safeEqual(e, item.Key)`) -/
+def mapSliceContains : List (GoVal × GoVal) → GoVal → R Bool
+  | [], _ => .ok false
+  | (k, _) :: rest, e => do
+    let r ← safeEqual e k
+    if r then .ok true else mapSliceContains rest e
+
 /-- the dynamic type of a value, when it is one a map key type can be -/
 def keyTyOf : GoVal → Option Ty
   | .bool _ => some .bool
@@ -540,10 +571,7 @@ def Wrapper.contains (w o : Wrapper) : R Bool :=
     | .str _ => .unmodelled "structValue.Contains: method and field lookup"
     | _ => .ok false
   | .mapSlice kvs =>
-    -- mapSliceValue.Contains (C09-3: safeEqual(e, item.Key))
-    kvs.foldr (fun kv acc => do
-      let r ← safeEqual e kv.1
-      if r then .ok true else acc) (.ok false)
+    mapSliceContains kvs e
   | .drop _ => .unmodelled "unresolved drop"
 
 /-! ## The grammar actions -/
